@@ -11,7 +11,8 @@ NAME="$(basename "$(dirname "$PATCH")")-$(basename "$(dirname "$(dirname "$PATCH
 COPY="$(mktemp -d /tmp/mutrepo.XXXXXX)"
 trap 'rm -rf "$COPY"' EXIT
 rsync -a --exclude .git --exclude 'MUTANT*' "${MUT_BASE:-/repo}/" "$COPY/"
-(cd "$COPY" && git init -q . 2>/dev/null && git apply --whitespace=nowarn "$PATCH") || { echo "$NAME: patch does not apply"; exit 2; }
+(cd "$COPY" && git init -q . 2>/dev/null && { git apply --whitespace=nowarn "$PATCH" 2>/dev/null || patch -p1 -s -F3 --no-backup-if-mismatch < "$PATCH" >/dev/null 2>&1; }) || { echo "$NAME: patch does not apply"; exit 2; }
+find "$COPY" -name '*.rej' -o -name '*.orig' | grep -q . && { echo "$NAME: patch applies only in part"; exit 2; }
 rm -rf "$COPY/.git"
 (cd "$COPY" && go build ./... && go test -vet=off -count=1 ./... >/dev/null 2>&1) || echo "$NAME: note: goyang's own tests fail with this patch"
 OUT=/tmp/mutout/$NAME; mkdir -p "$OUT"
